@@ -266,6 +266,7 @@ package pegnet
 //@   trusted
 //@   nullable tx
 //@   modifies LsyncPresent, LsyncVer
+//@   ensures !isRejectErr(result)
 //@   ensures result == nil ==> !old(LsyncPresent)[height] && LsyncPresent == upd(old(LsyncPresent), height, true) && LsyncVer == upd(old(LsyncVer), height, version)
 //@   ensures result != nil ==> LsyncPresent == old(LsyncPresent) && LsyncVer == old(LsyncVer)
 //@   ensures envHealthy ==> ((result == nil) <==> !old(LsyncPresent)[height])
@@ -435,8 +436,23 @@ package pegnet
 //@   modifies LmetaSynced, Lbal, Lsupply, Lrel, Lexec, LtoAmt, Lrefund, Lhist, Lhold, Lrated, Lrate, LbankPresent, LbankAmt, LbankUsed, LbankReq, LsyncPresent, LsyncVer, LsnapCur, LsnapPast, LsnapInCur, LsnapInPast
 //@   ensures LmetaSynced == Csynced
 //@
+//@ func (Pegnet).MarkHeightSynced
+//@   props C02 C19
+//@   nullable tx
+//@   modifies LsyncPresent, LsyncVer
+//@   ensures !isRejectErr(result)
+//@   ensures result == nil ==> !old(LsyncPresent)[height] && LsyncPresent == upd(old(LsyncPresent), height, true) && LsyncVer == upd(old(LsyncVer), height, PegnetdSyncVersion)
+//@   ensures result != nil ==> LsyncPresent == old(LsyncPresent) && LsyncVer == old(LsyncVer)
+//@
+//@ // the one statement that moves the persisted height (REPLACE INTO pn_metadata): trusted at statement level
+//@ site (*Pegnet).InsertSynced | (*database/sql.Tx).Exec | 1
+//@   modifies LmetaSynced, LmetaPresent
+//@   ensures err == nil ==> LmetaSynced == bs.Synced && LmetaPresent
+//@   ensures !isRejectErr(err)
+//@
 //@ func (*Pegnet).InsertSynced
-//@   trusted
+//@   props C02 C19
+//@   requires bs != nil
 //@   modifies LmetaSynced, LmetaPresent, LsyncPresent, LsyncVer
 //@   ensures !isRejectErr(result)
 //@   ensures result == nil ==> LmetaSynced == bs.Synced && LmetaPresent && !old(LsyncPresent)[bs.Synced] && LsyncPresent[bs.Synced] && LsyncVer[bs.Synced] == PegnetdSyncVersion
